@@ -412,7 +412,12 @@ class Parser:
             return self.token_error('Cannot use {} as a value.')
 
         if dest is OpCode.PUSH:
-            code_gen.push(value)
+            if move_inst is OpCode.MOVEQ:
+                # A constant, possibly a string: push it by value. A bare
+                # string would be looked up as a variable name by PUSH.
+                code_gen.add_instruction(OpCode.PUSHQ, value)
+            else:
+                code_gen.push(value)
         elif move_inst is OpCode.MOVEQ or value is not dest:
             # Moving a register or variable onto itself needs no code; a
             # literal that happens to equal the destination's name does.
